@@ -175,3 +175,16 @@ CHECKS["C17"] = {
     "technique": "TLC-checked unparse/parse bijection + call-trace validation of the real parser",
 }
 NOT_YET = {}
+CHECKS["C20"] = {
+    "category": "model_checking",
+    "engine": "tlc-mc",
+    "text": "Cpp.tla is an independent token-level C preprocessor (Prosser's algorithm: function-/object-like macros, argument pre-expansion, ##, "
+            "hide sets, rescanning) plus the do-while(0) stripping function and the patch rule of the macro table; TLC expands the bundled "
+            "definitions (seeded sample of ~230 in quick, all 2181 in thorough) under the bundled patched macro table and compares token-wise "
+            "with the bundled resolved lines, checks that no macro invocation survives and names are one-to-one; generated wrapper bodies and "
+            "generated macro/patch sets (duplicates, continuations, comments, user-only patches) are run through the real replace_do_while_0 / "
+            "patch_macros and validated by TLC; the whole pipeline is regenerated in a scratch copy and compared with the bundled files",
+    "note": "trusted base: TLC, Cpp.tla, the pp-tokeniser harness/front/cpptok.py; pastes that do not give a valid pp-token (undefined in C11) "
+            "are modelled as 'kept apart'",
+    "technique": "TLC evaluation of a TLA+ preprocessor specification against the bundled/regenerated artefacts and recorded function results",
+}
